@@ -381,7 +381,7 @@ def connhdr(chk, repo):
         if header:
             e2.run([tok[0]])
         close = e2.env.get("close_conn")
-        env2 = {"close": close, "version_o": version, "HttpVersion10": V10, "HttpVersion11": V11, **extra}
+        env2 = {"close": close, "version_o": version, "HttpVersion10": V10, "HttpVersion11": V11, "self.response_with_body": True, **extra}
         e3 = Evaluator(env2)
         e3.run([frag])
         return e3.env["close"]
@@ -399,6 +399,19 @@ def connhdr(chk, repo):
                           "server and client reach different decisions on whether the connection stays open (one side reuses a connection the other closes, or waits on one that stays open)")
     if not bad:
         chk.ok("C02.connhdr", snd[0], "response direction: (version, keep_alive) -> Connection header -> client close decision == not keep_alive on all 4 rows")
+    # a response to HEAD carries no body and usually no framing header: the client must not take it for a close-delimited body while the server
+    # keeps the connection alive (both ends have to agree on what happens to the connection)
+    try:
+        hd = Dict()
+        Evaluator({"headers": hd, "hdrs.CONNECTION": "Connection", "keep_alive": True, "version": V11, "HttpVersion10": V10, "HttpVersion11": V11}).run([snd[0]])
+        close = receiver(rcv[0], V11, hd.get("Connection"), {"status_i": 200, "headers": Dict(), "hdrs.CONTENT_LENGTH": "Content-Length", "hdrs.TRANSFER_ENCODING": "Transfer-Encoding", "self.response_with_body": False})
+        if close:
+            chk.violation("C02.connhdr", rcv[0], "close decision for a response without framing headers", "close = False when the response cannot have a body (HEAD)",
+                          "a 200 to HEAD without Content-Length / Transfer-Encoding (web.Response(), StreamResponse) is kept alive by the server but taken for a close-delimited body by the client, which drops the connection after every such HEAD")
+        else:
+            chk.ok("C02.connhdr", rcv[0], "a response to HEAD without framing headers leaves the connection open on both ends")
+    except Exception as e:  # the decision table could not be evaluated
+        chk.analysis_error(f"C02.connhdr: HEAD row: {e}")
     sn = repo.func(REQ, "ClientRequestBase._send")
     snd2 = [i for i in ast.walk(sn.node) if isinstance(i, ast.If) and norm.raw(i.test) == "hdrs.CONNECTION not in self.headers"]
     rq = repo.func(HP, "HttpRequestParser.parse_message")
